@@ -151,6 +151,8 @@ PURE_INTRINSICS = {
     "llvm.umax", "llvm.umin", "llvm.smax", "llvm.smin", "llvm.abs", "llvm.ctlz", "llvm.cttz", "llvm.ctpop",
     "llvm.x86.bmi.pdep.64", "llvm.x86.bmi.pdep.32", "llvm.x86.bmi.pext.64", "llvm.minnum", "llvm.maxnum", "llvm.copysign",
     "llvm.fshl", "llvm.fshr", "llvm.bswap", "llvm.bitreverse", "llvm.usub.sat", "llvm.uadd.sat",
+    "llvm.umul.with.overflow", "llvm.smul.with.overflow", "llvm.uadd.with.overflow", "llvm.sadd.with.overflow",
+    "llvm.usub.with.overflow", "llvm.ssub.with.overflow", "llvm.expect", "llvm.is.constant", "llvm.ssub.sat", "llvm.sadd.sat",
 }
 IGNORED_INTRINSICS = ("llvm.dbg.", "llvm.lifetime.", "llvm.assume", "llvm.experimental.noalias.scope", "llvm.invariant.", "llvm.donothing")
 # libm functions clang leaves as calls; they are pure under -fno-math-errno
